@@ -153,7 +153,12 @@ fn judge_archive_with(source: &Value, n_samples: u32, bytes: &[u8], only: &[u64]
         r.extra_digests.push(seed::fnv_mix(arch_id, n));
         r.max("max_io_calls_per_prefix", res.io_calls);
         r.max("max_alloc_request_per_prefix", res.max_alloc as u64);
-        for (which, v) in [("container", &res.container), ("reader", &res.reader)] {
+        let mut verdicts = vec![("container", &res.container), ("reader", &res.reader)];
+        if let Some(v) = &res.clone_of_live_handle {
+            verdicts.push(("clone_for_thread", v));
+            r.count("clone_of_live_handle_judged", 1);
+        }
+        for (which, v) in verdicts {
             let (slot, bad): (usize, Option<(&str, String)>) = match v {
                 Verdict::Refused => (0, None),
                 Verdict::Panic(p) => (1, Some(("panic", format!("{which} open panicked on prefix {n}/{}: {p}", bytes.len())))),
